@@ -29,10 +29,13 @@ def _gen_fn(w, ty):
     raise KeyError(ty)
 
 
-def range_tiling(w, ty, peers):
+def range_tiling(w, ty, peers, crosscheck=False):
     f = _gen_fn(w, ty)
 
     def h(ex):
+        if crosscheck:
+            ex.env['crosscheck'] = True      # two solvers must agree on every hard query
+            ex.env['hard_timeout'] = 600
         s = ex.fresh_int(ty, 'start')
         e = ex.fresh_int(ty, 'end')
         x = ex.fresh_int(ty, 'x')
@@ -64,7 +67,7 @@ def TASKS(tier):
     ts = []
     for ty in RANGE_TYPES:
         for p in ps:
-            ts.append(Task('range_%s_p%d' % (ty, p), 'range_tiling', {'ty': ty, 'peers': p},
+            ts.append(Task('range_%s_p%d' % (ty, p), 'range_tiling', {'ty': ty, 'peers': p, 'crosscheck': tier != 'quick'},
                            bounds='T=%s, peers=%d concrete, all indices 0..peers-1; start,end,x fully symbolic '
                                   '%s' % (ty, p, ty), role='range', opts={'covers': ['end']}, budget=50))
     return ts
